@@ -19,6 +19,31 @@ import (
 // scriptedBackend is the metastore back end of the scripted scenarios that follow (see world.Backends).
 var scriptedBackend = "memory"
 
+// watchedBubble runs f inside a synctest bubble under a generous wall-clock watchdog. A goroutine blocked on a sync
+// mutex is not "durably blocked" for synctest, so a lock that is never released would hang the whole run instead of
+// producing a verdict. The cases are deterministic and normally take milliseconds to seconds: one that does not
+// finish within the watchdog on two attempts in a row is reported as a hang (the panic value says so); the second
+// attempt rules out a machine that was merely busy. A panic of the bubble (including synctest's own deadlock panic)
+// is passed on to the caller.
+func watchedBubble(t *testing.T, limit time.Duration, f func(t *testing.T)) {
+	for attempt := 0; attempt < 2; attempt++ {
+		done := make(chan any, 1)
+		go func() {
+			defer func() { done <- recover() }()
+			synctest.Test(t, f)
+		}()
+		select {
+		case p := <-done:
+			if p != nil {
+				panic(p)
+			}
+			return
+		case <-time.After(limit):
+		}
+	}
+	panic(fmt.Sprintf("hang: the case did not finish within %s of wall clock on two attempts (a lock that is never released?)", limit))
+}
+
 // scripted runs body as one deterministic scenario inside a bubble, with one world and fixed timing.
 func scripted(t *testing.T, r *ev.Run, name string, oracles int, E, R, P time.Duration, body func(h *hist)) {
 	defer func() {
@@ -26,7 +51,7 @@ func scripted(t *testing.T, r *ev.Run, name string, oracles int, E, R, P time.Du
 			r.Violation("matrix-panic", fmt.Sprintf("scenario %s: panic: %v", name, pv), name)
 		}
 	}()
-	synctest.Test(t, func(t *testing.T) {
+	watchedBubble(t, 90*time.Second, func(t *testing.T) {
 		h := &hist{r: r, p: Params{Oracles: oracles, Parts: []string{"P", "seed"}}, rng: rand.New(rand.NewSource(1)), seed: -1, svc: "svc", prod: "prod"}
 		h.c3 = newC03()
 		h.store = map[int]*drrT{}
@@ -344,6 +369,11 @@ func matrixC04Race(t *testing.T, r *ev.Run) {
 				h.encrypt(sa)
 				h.encrypt(sb)
 				h.decrypt(h.openSess(fb, "P"), first, "other-factory")
+				// "new keys are created, persisted and used": whatever each process ended up encrypting under is in the
+				// store, so a process that has none of these keys cached reads every record
+				for _, rc := range append([]*rec(nil), h.recs...) {
+					h.decryptFresh(rc)
+				}
 			})
 		}
 	}
